@@ -219,6 +219,26 @@ class Ledger(qsim.Oracle):
             if kind in ("K", "D"):
                 r.finished_gen = self.generation
 
+    def expire_if_dying(self, m, r):
+        """A Z answered while the message's job is dying (its latest pass - of either channel: the flag is per
+        message - opened when recent > birth + lifetime, computed like the daemon does from the observed info
+        mtime) is documented to become a failure.  Applied when the daemon shows that it has processed the
+        report: at the mark write, or (when the mark could not be written) when it removes the channel file or
+        the message; -> True if the record's latest report was turned from Z into D"""
+        if not r.reports or r.reports[-1] != "Z" or m.birth is None:
+            return False
+        opens = [po[-1] for po in m.pass_open.values() if po]
+        if not opens:
+            return False
+        opened = max(opens, key=lambda x: x[2])[0]
+        if opened > m.birth + self.lifetime:
+            r.reports[-1] = "D"
+            r.bounce_text = b"(expired)"
+            r.finished_gen = self.generation
+            m.lifetime_hit = True
+            return True
+        return False
+
     def find_rcpt(self, m, chan, addr, sim):
         """the channel record a new command refers to.  Within one pass (since the pass-open event,
         class 'o' of the shim) the daemon visits the records in file order, skipping those already
@@ -298,17 +318,8 @@ class Ledger(qsim.Oracle):
                     ev["rcpt"] = r
                     ev["msg"] = m
                     ev["last_report_before_mark"] = r.reports[-1] if r.reports else None
-                    if r.reports and r.reports[-1] == "Z":
-                        # a Z answered in a dying pass (pass opened when recent > birth + lifetime, as the
-                        # daemon computes it from the observed info mtime) is documented to become a failure
-                        po = m.pass_open.get(r.chan, [])
-                        opened = po[-1][0] if po else None
-                        if opened is not None and m.birth is not None and opened > m.birth + self.lifetime:
-                            r.reports[-1] = "D"
-                            r.bounce_text = b"(expired)"
-                            r.finished_gen = self.generation
-                            m.lifetime_hit = True
-                            ev["expired"] = True
+                    if self.expire_if_dying(m, r):
+                        ev["expired"] = True
         elif c == "unlink" and d == "info" and ev.get("role", "").startswith("send"):
             m = self.msg(num)
             if m is not None and m.records is not None:
